@@ -165,7 +165,11 @@ def subst_value(v, old, new):
     from octave_mcp.core.ast_nodes import InlineMap, ListValue
 
     if isinstance(v, str):
-        return new if v == old else v
+        if v == old:
+            return new
+        if old in v and any(c in v for c in "\u2192\u2295\u29fa\u21cc\u2227\u2228@"):
+            return v.replace(old, new)  # the placeholder is one operand of an expression value
+        return v
     if isinstance(v, ListValue):
         return ListValue(items=[subst_value(x, old, new) for x in v.items])
     if isinstance(v, InlineMap):
